@@ -283,7 +283,14 @@ func runGated(cfg gatedCfg, preBlock func(outcome, []string)) (res gatedResult) 
 		curGate.Store(gate)
 	}
 	pool.Start()
-	waitQuiescent()
+	if why := blind(patternOf(waitQuiescent(), before), pool.WorkerCount()); why != "" {
+		res.Inconcl = why
+		if gate != nil {
+			gate.open()
+		}
+		do(sh, func() { pool.Shutdown() })
+		return
+	}
 	step("Start(); quiescent")
 
 	var probe, carrier *gtask
